@@ -47,6 +47,9 @@ COMMENTS = G.COMMENTS
 commented_program = G.commented_program
 
 
+# texts that ast.parse() refuses with something else than a SyntaxError
+_REFUSED = st.one_of(st.sampled_from(["x = '\ud800'", "print('\udfff')\n", "-" * 5000 + "1", "x" + "+x" * 3000, "y = " + "(" * 120 + "1" + ")" * 120, "a\ud83d = 1\n"]),
+                     st.tuples(G.any_valid_program(stdlib=False), st.sampled_from(['\ud800', '\udc00'])).map(lambda t: t[0] + "\ns = '" + t[1] + "'\n"))
 _TEXT = st.text(st.characters(exclude_categories=['Cs']), max_size=60)
 _BLANK = st.text(st.sampled_from(list(' \t\n\r\f\v') + ['\x1c', '\x85', ' ']), max_size=8)
 _LINEY = st.lists(st.sampled_from(['x = 1', '  y = 2', '\tz = 3', 'if x:', 'else:', '    pass', 'print(', ')', '"""', '# c', '', 'def f():', '  return 1',
@@ -62,10 +65,10 @@ _TABMIX = st.tuples(st.sampled_from(['if x:', 'def f():', 'for i in y:', 'while 
 
 
 def texts(tier):
-    base = st.one_of(G.any_valid_program(stdlib=False), edited_program(), edited_program(), commented_program(), _TEXT, _BLANK, _LINEY, _LINEY.map(lambda t: t + '\n'),
+    base = st.one_of(G.any_valid_program(stdlib=False), edited_program(), edited_program(), commented_program(), _TEXT, _REFUSED, _BLANK, _LINEY, _LINEY.map(lambda t: t + '\n'),
                      _TABMIX)
     prev = st.one_of(st.none(), st.none(), st.sampled_from(['a = 1\nb = 2\nc = a + b\nprint(c)\n', 'x = (\n', '', 'def f():\n    return 1\nf()\nf()\n']))
-    return st.fixed_dictionaries({'text': base, 'offset': st.sampled_from([0, 0, 1, 2, 5]), 'prev': prev, 'exotic': st.sampled_from([0, 0, 1, 2, 3])},
+    return st.fixed_dictionaries({'text': base, 'offset': st.sampled_from([0, 0, 1, 2, 5]), 'prev': prev, 'exotic': st.sampled_from([0, 0, 1, 2, 3, 4, 5])},
                                  optional={'explicit': st.booleans()})
 
 
@@ -91,20 +94,35 @@ def judge(case):
         k = 0
     kind, ref = reference(text)
     if kind == 'other':
-        return Result([], False, ['skipped-parser-limit'], ambiguous=1)
+        # CPython refuses the text without a SyntaxError (lone surrogate: UnicodeEncodeError, nesting too deep: RecursionError):
+        # verify() still must not raise, and a syntax feedback must say that the text is not a program
+        MAIN_REPORT.full_clear()
+        contextualize_report(text)
+        try:
+            verify()
+        except BaseException as e:
+            MAIN_REPORT.full_clear()
+            return Result([V('C12|verify-raises:%s|refused-text' % type(e).__name__, 'verify() raised %s: %s on text %r' % (type(e).__name__, str(e)[:100], text[:60]))],
+                          True, ['refused-without-SyntaxError'])
+        syn = [f for f in MAIN_REPORT.feedback if (f.category or '').lower() == 'syntax' and f.label in ('syntax_error', 'indentation_error')]
+        MAIN_REPORT.full_clear()
+        if len(syn) != 1:
+            return Result([V('C12|syntax-error-missed|refused-text', 'CPython refuses %r (%s) but verify() attached %d syntax feedbacks' % (text[:60], type(ref).__name__, len(syn)))],
+                          True, ['refused-without-SyntaxError'])
+        return Result([], True, ['refused-without-SyntaxError'])
     viol, classes = [], ['section' if k else 'whole-file']
     explicit = False
     MAIN_REPORT.full_clear()
     try:
         if k:
-            exotic = ['v = 1\n', '# page \x0c break\n', 's = "a\u2028b"\n', '# \x85 \x0b \x1c\n']
+            exotic = ['v = 1\n', '# page \x0c break\n', 's = "a\u2028b"\n', '# \x85 \x0b \x1c\n', 'w = 2\rq = 3\n', 'r = 4\r\n']
             prelude = ''.join(exotic[(case.get('exotic', 0) + i) % len(exotic)] if case.get('exotic') else 'v = 1\n' for i in range(k - 1)) + '##### Part 1\n'
             contextualize_report(prelude + text)
             separate_into_sections(independent=True)
             before = len(MAIN_REPORT.feedback)
             next_section()
             # whole-file numbering: the prelude's real line count (line terminators as CPython's tokenizer sees them), not str.splitlines
-            shifted_kind, shifted = reference(''.join('#\n' for _ in range(k)) + text)
+            shifted_kind, shifted = reference('#\n' * len(re.findall(r'\r\n|\r|\n', prelude)) + text)
         elif case.get('prev') is not None:
             # a history: an earlier text was verified in the same report, then the source is replaced
             from pedal.source import set_source
